@@ -188,6 +188,17 @@ impl From<cli::Opt> for Config {
         let mut styles = parse_styles::parse_styles(&opt);
         let styles_map = parse_styles::parse_styles_map(&opt);
 
+        if opt.color_only {
+            // In color_only mode output lines must correspond 1-1 to input lines: just like the
+            // *-decoration-style options (see set_options), a decoration requested inside the
+            // style string itself ("box", "underline", ...) can not be honored.
+            for name in ["commit-style", "file-style", "hunk-header-style"] {
+                if let Some(style) = styles.get_mut(name) {
+                    style.decoration_style = style::DecorationStyle::NoDecoration;
+                }
+            }
+        }
+
         let wrap_config = WrapConfig::from_opt(&opt, styles["inline-hint-style"]);
 
         let max_line_distance_for_naively_paired_lines = opt
